@@ -22,22 +22,31 @@ RULE = ("cases: CouplingMarkovChain(StepModel in 4 representations x variation f
         "uniforms around each cumulative corner probability.  oracle: brute-force sum_fine rate*P(fine->y) vs the rate of the chain "
         "built on the un-refined grid (1-d step models exact-ish 1e-12; 2-d table copulas and Clayton x real margins).  "
         "real stream: HEM/Merton/VG/CGMY on probability-step, geometric, with-bounds and uniform grids, levels 1-3, same brute-force "
-        "oracle incl. the mass coupled to 0 (1e-8 of the intensity).  non-trivial = distinct (chain, level, increment) with an odd increment")
+        "oracle incl. the mass coupled to 0 (1e-8 of the intensity).  jump-time stream: 1-d CouplingSimulationWithJumpTimes / MaximumStep "
+        "(levels 1-2) and the copula CouplingLevyCopulaSimulationWithJumpTimes / MaximumStep (equal and unequal axes) simulated end to end; "
+        "on every path: the coarse component moves only when the fine one does, by the same state (even coordinate) or a neighbour on its own "
+        "axis (odd), and the two diffusion parts are the same Brownian increments times the two coefficients / matrices (1e-9).  "
+        "non-trivial = distinct (chain, level, increment) with an odd increment; a simulated path with at least one jump")
 MODELLED = ["CouplingSimulation.probability_to_right_jump / coupling_state / coupling_states_for_a_slice (exact correspondence groups state1d, "
             "prob1d, slice1d), next_level bookkeeping (group levels), CouplingSimulation.simulate_diffusion_with_coupling of the fixed-dates "
             "simulation (group diffusion, 1e-12); coupling_index is tied to coupling_state by theorem C03_coupling_state_is_index; the "
-            "fresh-normals override CouplingSimulationWithJumpTimes.simulate_diffusion_with_coupling is not modelled",
-            "CouplingLevyCopulaSimulation.__coupling_state in dimension 2 (Model/CouplingNd.v, exact correspondence on density tables); "
-            "dimension 3 and the diffusion matrices (scipy.linalg.sqrtm) are not modelled",
+            "jump-time / maximum-step simulators (1-d and copula, incl. the fresh-normals simulate_diffusion_with_coupling override) have no Coq "
+            "model: they are driven end to end and checked by the oracle check_coupled_path (copy / adjacency per coordinate, same Brownian increments)",
+            "CouplingLevyCopulaSimulation.__coupling_state in dimension 2 (Model/CouplingNd.v: coupling_state2 / prob_to2 = the code as it is, exact "
+            "correspondence on density tables, equal and unequal axes); coupling_state2_joint / prob_to2_joint = the REPAIRED rule (joint corner "
+            "masses), a specification no code implements yet; dimension 3 (oracle only) and the diffusion matrices (scipy.linalg.sqrtm) are not modelled",
             "Poisson thinning / 'same law' of the coarse path: the probabilistic step from equal rates, drift and diffusion to equal "
-            "law is on paper, not formalised",
+            "law is on paper, not formalised; C03_same_generator_1d packages the three equalities (rates, diffusion coefficient, drift) on the "
+            "level machine's own state for every level, so the only paper step left is 'equal generator data => equal law'",
             "couplingsde.py (SDE coupling built on the chain coupling): not modelled (see THEOREM_NOTES)",
             "np.sqrt in the equivalent diffusion coefficient: the model works with squares"]
 ASSUMPTIONS = ["mass a b = fine_process.model.mass, additive and non-negative on intervals NOT containing 0, respects == "
                "(C01_step_mass_is_a_measure for step measures; C09 is not formally composed)",
                "two middles mc (coarse level: used by refine and the coarse chain) and mf (refined level): strictly inside a gap, "
                "middle(x,x)=x at non-zero x; proved instance: both the arithmetic mean",
-               "the coupling uniform is uniform on [0,1) and independent of the fine increment (C08)"]
+               "the coupling uniform is uniform on [0,1) and independent of the fine increment (C08)",
+               "2-d: mass2 a b = model.mass(a, b) additive in each coordinate and non-negative on boxes one of whose coordinate intervals "
+               "avoids 0, respects ==; both axes admissible with the same origin index (CTMCGrid has one origin_coordinate); middle = arithmetic mean"]
 THEOREM_NOTES = {
     "number system": "proved over Q inside a Section with an abstract additive non-negative interval mass (simplification of DESIGN 2.1)",
     "known finding": "a copula-coupling mismatch is accepted as F-C03-1 only if the implementation's inflow equals, state by state, the "
@@ -47,25 +56,45 @@ THEOREM_NOTES = {
     "C03_telescoping_nd_refuted": "F-C03-1: the faithful 2-d model of __coupling_state violates the identity on an explicit density table "
                                   "(vm_compute witness: inflow 23/36 vs coarse rate 1/4 at coarse state (1,0)); the implementation is replayed on the same table",
     "n-d positive theorems": "C03_copy_rule_nd, C03_adjacency_nd, C03_corner1_is_law, C03_corner2_is_law (corner probabilities are a law when the "
-                             "denominator is not 0), C03_frozen_nd (any number of next_level calls); the general joint-mass telescoping theorem is NOT proved",
-    "C03_telescoping_nd_joint_instance": "only an instance (the witness table, all 24 coarse states by vm_compute): the general theorem "
-                                         "'joint corner masses telescope' (C03_telescoping_nd_joint) is NOT proved",
-    "C03_sde": "not proved: couplingsde.py is not modelled; observation F-C03-2 (coarse SDE solution advanced on the level-l time grid) is not assessed",
+                             "denominator is not 0), C03_frozen_nd (any number of next_level calls)",
+    "C03_telescoping_nd_joint": "GENERAL (dimension 2): for any rectangle mass additive per coordinate and non-negative on boxes avoiding the origin, any "
+                                "two admissible axes (they may differ) with the common origin index, and every coarse state other than the origin: "
+                                "sum_fine rate x P_joint(fine -> y) == coarse rate of y, P_joint = prob_to2_joint (corner probabilities of one odd axis "
+                                "from the JOINT mass half-cell x cell).  It is a theorem about the REPAIRED rule; the code as it is (margin masses) is "
+                                "refuted by C03_telescoping_nd_refuted.  Proof: rate x P = mass of (part sent along axis 1) x (part sent along axis 2) "
+                                "(flow2), then the 1-d tiling lemma (strip) along each axis.  Dimension >= 3 is not proved",
+    "C03_coupling_law_nd_*": "link prob_to2 / prob_to2_joint (used by the inflow) to coupling_state2 / coupling_state2_joint as functions of the coupling "
+                             "uniform, for both rules (parameter joint): one odd axis -> left neighbour iff u <= pl, right iff pl < u <= pl+pr; both "
+                             "odd -> corner k iff cum_(k-1) < u <= cum_k (itertools.product([-1,1]) order); all other targets have probability 0. "
+                             "The thresholds are '<=' as in the code (u <= probability); u = 0 has probability 0",
+    "C03_telescoping_nd_joint_instance": "kept: the witness table, all 24 coarse states by vm_compute (now an instance of C03_telescoping_nd_joint; "
+                                         "that step_mass2 of a non-negative table satisfies the hypotheses of the general theorem is NOT proved in Coq)",
+    "C03_same_generator_1d": "for CTMCGrid's arithmetic middle, any well-formed 1-d grid and any number n of next_level calls: jump rates of the "
+                             "coarse component (coupled inflow on the state's own grid) == q_entry of the level-n chain, c_sig2_coarse = sig2_of(level-n "
+                             "grid), frozen drift == drift_of(level-n grid).  Composition of C13 refine_n_grid_wf, C03_telescoping_1d and "
+                             "C03_drift_diffusion_frozen.  The n-d analogue is not stated (the code's n-d rates do not telescope: F-C03-1)",
+    "C03_sde": "not proved: couplingsde.py is not modelled here (C16 models its Euler recursion and mc_drift bookkeeping); the composition "
+               "Model/Euler.v x Coupling1d was not attempted in wave 5 (time); observation F-C03-2 is not assessed",
     "expected coarse payoff = expected fine payoff at level l-1": "derived on paper from C03_telescoping_1d + C03_drift_diffusion_frozen + "
                                                                   "C03_same_brownian_increments + Poisson thinning; not formalised",
 }
-LEVEL_TEXT = ("Proof: 18 Coq theorems (closed under the global context). One-dimensional coupling, for every admissible axis, every middle "
+LEVEL_TEXT = ("Proof: 23 Coq theorems + 3 examples (closed under the global context). One-dimensional coupling, for every admissible axis, every middle "
               "function with the stated properties and every additive non-negative mass: after refine the coarse grid is the even "
               "indices and the coarse cells are bounded by the odd states; coupling_state copies even increments and moves odd ones to "
               "an adjacent coarse state; sum over fine states of rate x P(fine -> y) equals the coarse chain's rate of y (states of "
               "rate 0 excluded), and the mass coupled to 0 is the old central cell minus the new one; in every state of the level "
               "machine the coarse diffusion coefficient and frozen drift are the fine ones of level l-1 and both components use the "
-              "same Brownian increments. Copula coupling: the faithful model REFUTES the identity (C03_telescoping_nd_refuted, finding "
-              "F-C03-1, replayed on the implementation). Tied to /repo by exact vm_compute correspondence on step-measure chains and "
-              "density-table copulas. Partial: n-d positive theorem, SDE coupling and the probabilistic 'same law' step are not proved.")
+              "same Brownian increments; C03_same_generator_1d packages rates + diffusion + drift of the coarse component as equal to the "
+              "level-(l-1) chain's generator data at every level. Copula coupling (dimension 2): the faithful model of the code REFUTES the "
+              "identity (C03_telescoping_nd_refuted, finding F-C03-1, replayed on the implementation); for the repaired rule (joint corner "
+              "masses) the identity is PROVED in general (C03_telescoping_nd_joint: any additive non-negative rectangle mass, any two "
+              "admissible axes); the law of coupling_state2 as a function of the coupling uniform is linked to prob_to2 for both rules "
+              "(C03_coupling_law_nd_*). Tied to /repo by exact vm_compute correspondence on step-measure chains and density-table copulas; "
+              "jump-time / maximum-step coupled simulators (1-d and copula) driven end to end by an oracle. Partial: dimension >= 3, SDE "
+              "coupling and the probabilistic step 'equal generator data => equal law' are not proved.")
 LEVEL_NOTE = ("Trusted: Coq kernel + vm_compute; py2coq (truncation, triplet conversions); floats modelled as Q (exact on dyadic inputs); "
               "Section hypotheses on mass/mid; uniformity/independence of the coupling uniform (C08).")
-TECHNIQUE = "Coq proof over Q (sum localisation + interval additivity, induction on levels) + vm_compute refutation witness + exact vm_compute correspondence"
+TECHNIQUE = "Coq proof over Q (sum localisation + interval additivity per coordinate, induction on levels) + vm_compute refutation witness + exact vm_compute correspondence"
 
 REP_VAL = {"ZERO": 1, "CENTER": 2, "ONEONE": 3, "TILDE": 4}
 ACCEPTED_1D = ["INVERSION", "ALIAS", "TABLE", "BINARYSEARCHTREE", "HUFFMANNTREE", "BINARYSEARCHTREEADAPTED1D"]
@@ -212,6 +241,7 @@ def correspond(res):
     _real_grids(res, rng, viol)
     _samplers(res, rng, viol)
     _n_d(res, rng, viol, groups)
+    _jump_time_simulators(res, rng, viol)
     header = ("From Coq Require Import ZArith QArith Qabs List Bool.\nFrom RV Require Import Base.QB Model.Grid Gen.GenC01Trunc Gen.GenC04Triplet "
               "Model.Chain Model.Drift Model.Coupling1d Model.CouplingNd.\nOpen Scope Q_scope.\n"
               "Definition oq_eqb (a b : option Q) : bool := match a, b with Some x, Some y => Qeq_bool x y | None, None => true | _, _ => false end.\n"
@@ -843,6 +873,131 @@ def _n_d(res, rng, viol, groups):
             slice_check_nd(viol, res, c3, rng, ctx3, n=40 if not thorough else 300)
     except Exception as e:  # noqa
         viol(f"copula coupling in dimension 3 raises {type(e).__name__}", reason=str(e)[:200], kind="nd-3d")
+
+
+# ------------------------------------------------------------------------------------------ jump-time / maximum-step coupled simulators
+def stochastic_dates_product():
+    from rpylib.product.payoff import PayoffDates
+    product = make_product()
+    product.payoff.payoff_dates_type = PayoffDates.STOCHASTIC      # selects the *WithJumpTimes coupled simulators
+    return product
+
+
+def check_coupled_path(viol, path, axes, o, coef, ctx, tol=1e-9):
+    """one coupled path of a jump-time / maximum-step simulator (1-d or copula): between two consecutive times the fine component moves
+    by 0 (an inserted time) or by a fine state; the coarse component then moves by 0, by the same state (even coordinate) or by one of
+    the two neighbours ON ITS OWN AXIS (odd coordinate); both diffusion parts are the same Brownian increments times the two coefficients.
+    axes: one list per coordinate; coef = (fine, coarse) coefficient (1-d floats) or matrices (n-d)"""
+    d = len(axes)
+    jp = np.asarray(path.jump_path, dtype=float).reshape(2, d, -1)
+    df = np.asarray(path.diffusion_path, dtype=float).reshape(2, d, -1)
+    times = np.asarray(path.jump_times, dtype=float)
+    if jp.shape[2] != times.size or df.shape[2] != times.size or np.any(np.diff(times) < 0):
+        viol("coupled jump-time path: times / jump path / diffusion path lengths differ or times decrease", **ctx)
+        return 0
+    near = lambda x, y: abs(x - y) <= tol * (1 + abs(y))
+    moved = 0
+    for k in range(times.size - 1):
+        dfine, dcoarse = jp[0][:, k + 1] - jp[0][:, k], jp[1][:, k + 1] - jp[1][:, k]
+        if all(near(x, 0.0) for x in dfine):
+            if not all(near(x, 0.0) for x in dcoarse):
+                viol("coupled jump-time path: the coarse component jumps at a time where the fine one does not", step=k, **ctx)
+                return moved
+            continue
+        moved += 1
+        for c in range(d):
+            ax = axes[c]
+            idx = [i for i in range(len(ax)) if near(dfine[c], ax[i])]
+            if not idx:
+                viol("coupled jump-time path: a fine jump is not a state of the fine grid", step=k, coordinate=c, jump=float(dfine[c]), **ctx)
+                return moved
+            pk = idx[0]
+            ok = near(dcoarse[c], ax[pk]) if (pk - o) % 2 == 0 else (near(dcoarse[c], ax[pk - 1]) or near(dcoarse[c], ax[min(len(ax) - 1, pk + 1)]))
+            if not ok:
+                viol("coupled jump-time path: a coarse jump is not the fine state (even) / an adjacent coarse state (odd)", step=k, coordinate=c,
+                     fine=float(dfine[c]), coarse=float(dcoarse[c]), **ctx)
+                return moved
+    # same Brownian increments: fine = Mf w, coarse = Mc w  (1-d: cross-multiplication; n-d: solve when Mf is well conditioned)
+    incf, incc = np.diff(df[0], axis=1), np.diff(df[1], axis=1)
+    if d == 1:
+        cf, cc = float(coef[0]), float(coef[1])
+        if not np.allclose(incf * cc, incc * cf, rtol=1e-9, atol=1e-12):
+            viol("coupled jump-time path: the two diffusion parts are not the same Brownian increments times the two coefficients", **ctx)
+    else:
+        mf, mc = np.real(np.array(coef[0], dtype=complex)), np.real(np.array(coef[1], dtype=complex))
+        if abs(np.linalg.det(mf)) > 1e-6:
+            if not np.allclose(mc @ np.linalg.solve(mf, incf), incc, rtol=1e-7, atol=1e-10):
+                viol("coupled jump-time path: the two diffusion parts are not the same Brownian increments times the two matrices", **ctx)
+    return moved
+
+
+def _jump_time_simulators(res, rng, viol):
+    """audit3 C.3: the coupled simulators no case reached -- 1-d CouplingSimulationWithJumpTimes / MaximumStep and the copula
+    CouplingLevyCopulaSimulationWithJumpTimes / MaximumStep (incl. their fresh-normals simulate_diffusion_with_coupling), unequal axes"""
+    from stepmeasure import StepMeasure, StepModel, make_grid, Table2, table_copula_model
+    from rpylib.model.levymodel.levymodel import LevyRepresentation
+    from rpylib.grid.spatial import CTMCGrid
+    from rpylib.montecarlo.path import MLMCPath
+    thorough = res.tier == "thorough"
+    npaths = 4 if not thorough else 40
+    nu = StepMeasure([Fr(-2), Fr(0), Fr(3)], [Fr(3), Fr(3, 2)])
+    axis = [Fr(-2), Fr(-1), Fr(-1, 2), Fr(0), Fr(1, 2), Fr(2), Fr(3)]
+    for mode in ("jumptimes", "maxstep"):
+        for levels in (1, 2):
+            ctx = dict(kind="jump-time-sim", dim=1, mode=mode, levels=levels)
+            try:
+                with warnings.catch_warnings():
+                    warnings.simplefilter("ignore")
+                    np.random.seed(rng.randrange(2 ** 31))
+                    model = StepModel(nu, a=0.375, sigma=0.5, representation=LevyRepresentation.CENTER)
+                    product = stochastic_dates_product() if mode == "jumptimes" else make_product()
+                    eps = 0.125 if mode == "maxstep" else None
+                    c, pms, product = build_coupling_1d(model, make_grid(axis, 3, Fr(1, 2)), product=product)
+                    for _ in range(levels):
+                        c.next_level(mc_paths=3, path_managers=pms, product=product, max_step_epsilon=eps)
+                    want = "CouplingSimulationMaximumStep" if mode == "maxstep" else "CouplingSimulationWithJumpTimes"
+                    if type(c._path_coupling_simulation).__name__ != want:
+                        viol(f"1-d coupling: expected the simulator {want}", got=type(c._path_coupling_simulation).__name__, **ctx)
+                        continue
+                    ax = [[float(x) for x in c.grid.axes[0]]]
+                    coef = (c.equivalent_diffusion_coefficient_fine, c.equivalent_diffusion_coefficient_coarse)
+                    for _ in range(npaths):
+                        m = check_coupled_path(viol, c.simulate_one_path_with_coupling(), ax, c.grid.origin_coordinate.value, coef, ctx)
+                        res.count(("jump-time-sim", 1, mode, levels, m, rng.random()), nontrivial=m > 0, kind=f"1-d {want} path")
+                        res.bump("jump_time_sim", f"1d {mode} level {levels}")
+            except Exception as e:  # noqa
+                viol(f"1-d coupled {mode} simulation raises {type(e).__name__}", reason=str(e)[:200], **ctx)
+    table = Table2(WITNESS_TABLE)
+    for mode in ("jumptimes", "maxstep"):
+        for ax0, ax1 in ((AXES_POOL[0], AXES_POOL[0]), (AXES_POOL[1], AXES_POOL[3])):
+            ctx = dict(kind="jump-time-sim", dim=2, mode=mode, axis=ax0, axis1=ax1)
+            try:
+                with warnings.catch_warnings():
+                    warnings.simplefilter("ignore")
+                    np.random.seed(rng.randrange(2 ** 31))
+                    model = table_copula_model(table, sigma=(0.5, 0.25), fv=(False, True))
+                    grid = CTMCGrid(h=float(ax0[3]), origin_coordinate=2, axes=[np.array(ax0), np.array(ax1)])
+                    from rpylib.process.coupling.couplinglevycopula import CouplingProcessLevyCopula
+                    from rpylib.distribution.sampling import SamplingMethod
+                    product = stochastic_dates_product() if mode == "jumptimes" else make_product()
+                    eps = 0.125 if mode == "maxstep" else None
+                    c = CouplingProcessLevyCopula(levy_copula_model=model, grid=grid, method=SamplingMethod.INVERSION)
+                    c.initialisation(product, max_step_epsilon=eps)
+                    c.pre_computation(mc_paths=2, product=product)
+                    pms = [MLMCPath(deterministic_path=c.fine_process.deterministic_path, activate_spot_underlying=False)]
+                    c.next_level(mc_paths=2, path_managers=pms, product=product, max_step_epsilon=eps)
+                    want = "CouplingLevyCopulaSimulationMaximumStep" if mode == "maxstep" else "CouplingLevyCopulaSimulationWithJumpTimes"
+                    if type(c._path_coupling_simulation).__name__ != want:
+                        viol(f"copula coupling: expected the simulator {want}", got=type(c._path_coupling_simulation).__name__, **ctx)
+                        continue
+                    axes = [[float(x) for x in a] for a in c.grid.axes]
+                    for _ in range(npaths):
+                        m = check_coupled_path(viol, c.simulate_one_path_with_coupling(), axes, c.grid.origin_coordinate.value[0],
+                                               (c._diffusion_matrix_h, c._diffusion_matrix_2h), ctx)
+                        res.count(("jump-time-sim", 2, mode, ax0 == ax1, m, rng.random()), nontrivial=m > 0, kind=f"copula {want} path")
+                        res.bump("jump_time_sim", f"2d {mode} {'equal' if ax0 == ax1 else 'unequal'} axes")
+            except Exception as e:  # noqa
+                viol(f"copula coupled {mode} simulation raises {type(e).__name__}", reason=str(e)[:200], **ctx)
 
 
 def search(res):
